@@ -81,3 +81,20 @@ Theorem C03_api_qgram :
   valid_ed_case c tau -> qgram_rows tk f c -> forall out, api_join c = Some out -> all_specs c out.
 Proof. exact C03_edit_distance_join_qgram. Qed.
 Print Assumptions C03_api_qgram.
+
+(* tie of the token order to the source: utils/token_ordering.py, as REGENERATED on this run,
+   computes exactly the ranks of Model/TokenOrdering.v that the theorems above are about *)
+From SSJ Require Import TokenOrderingGen OrderingGenFacts.
+Theorem token_order_of_source_is_model :
+  forall tables attr_list smt tokenize tk toks,
+  tokenizes tables attr_list tokenize tk ->
+  order_using_token_ordering (PList (map PInt toks))
+    (gen_token_ordering_for_tables (PList (map PList tables)) attr_list smt tokenize)
+  = PList (map PInt (order (tab_tokens tk 0 tables) toks)).
+Proof. exact order_using_gen_tables. Qed.
+Theorem pair_token_order_of_source_is_model :
+  forall lists toks,
+  order_using_token_ordering (PList (map PInt toks))
+    (gen_token_ordering_for_lists (PList (map (fun l => PList (map PInt l)) lists)))
+  = PList (map PInt (order (List.concat lists) toks)).
+Proof. exact order_using_gen_lists. Qed.
